@@ -2867,3 +2867,282 @@ func extra5C13(c *Ctx) {
 	}
 	c.Expect(rule, "calls that receive a part of the name in the printers", n, 8)
 }
+
+// ---------------------------------------------------------------------------------- C16 (grouping)
+
+func init() {
+	p := registry["C16"]
+	p.Pkgs = append(p.Pkgs, "discover")
+	prev := p.Run
+	p.Run = func(c *Ctx) { prev(c); extra5C16(c) }
+}
+
+func extra5C16(c *Ctx) {
+	rule := "C16-R9"
+	c.Rule(rule, "GPUs are grouped by library into lists of their own: GpuInfoList.ByLibrary (what PredictServerFit and the scheduler's pickBest*ByLibrary plan over) starts every group from a fresh composite literal or make and grows it with append — no group is a slice expression of the list it was given: a view l[n:n+1] has spare capacity into the caller's array, so the next append writes over the caller's GPUs, a GPU of another library lands in the group and one GPU is planned twice, and a model is declared to fit on GPUs that cannot be used together")
+	f := c.Fn(rule, "discover", "GpuInfoList.ByLibrary")
+	if f == nil {
+		return
+	}
+	info := f.Info()
+	recv := recvObj(f)
+	bad := ""
+	nApp := 0
+	ast.Inspect(f.Body, func(m ast.Node) bool {
+		switch x := m.(type) {
+		case *ast.SliceExpr:
+			if id, ok := ast.Unparen(x.X).(*ast.Ident); ok && info.Uses[id] == recv && x.Max == nil {
+				bad = core.ExprString(x) + " at " + c.Pos(x)
+			}
+		case *ast.CallExpr:
+			if core.CalleeName(info, x) == "builtin.append" {
+				nApp++
+			}
+		}
+		return true
+	})
+	c.Check(rule, f.Key()+" groups do not alias the input", c.Pos(f.Decl), bad == "", "a group is the view "+bad+" of the caller's list (no capacity limit): appending to it overwrites the caller's elements")
+	c.Expect(rule, "appends in ByLibrary", nApp, 2)
+}
+
+// ---------------------------------------------------------------------------------- C17 (client decode, tool gate)
+
+func init() {
+	p := registry["C17"]
+	hasAPI := false
+	for _, x := range p.Pkgs {
+		if x == "api" {
+			hasAPI = true
+		}
+	}
+	if !hasAPI {
+		p.Pkgs = append(p.Pkgs, "api")
+	}
+	prev := p.Run
+	p.Run = func(c *Ctx) { prev(c); extra5C17(c) }
+}
+
+func extra5C17(c *Ctx) {
+	rule := "C17-R11"
+	c.Rule(rule, "every streamed line is decoded into a value of its own: in the per-line callbacks that api.Client's methods hand to stream, the variable json.Unmarshal decodes into is declared inside the callback (or reset to an empty literal there) — fields marked omitempty are simply absent from later lines, so a value kept across lines still shows the tool calls (or error, or metrics) of an earlier line and the chunks add up to more than the non-streamed response")
+	if p := c.P.Pkgs["api"]; p == nil {
+		c.Undecided(rule, "anchor:pkg:api", "-", "package not loaded")
+	} else {
+		info := p.TypesInfo
+		n := 0
+		for _, f := range c.P.FuncsOf("api") {
+			if strings.HasSuffix(c.Pos(f.Body), "_test.go") {
+				continue
+			}
+			for _, l := range f.Lits() {
+				u := core.UseOfLit(info, f.Body, l.Lit)
+				if u.Kind != "arg" || u.Callee != "api.Client.stream" {
+					continue
+				}
+				for _, call := range core.Calls(l.Body, false) {
+					if core.CalleeName(info, call) != "encoding/json.Unmarshal" || len(call.Args) != 2 {
+						continue
+					}
+					n++
+					ok, why := false, "the decode target is not &<variable>"
+					if un, isU := ast.Unparen(call.Args[1]).(*ast.UnaryExpr); isU && un.Op == token.AND {
+						if id, isId := ast.Unparen(un.X).(*ast.Ident); isId {
+							o := info.Uses[id]
+							why = id.Name + " is declared outside the per-line callback and not reset in it"
+							if o != nil && o.Pos() >= l.Lit.Pos() && o.Pos() <= l.Lit.End() {
+								ok = true
+							} else {
+								// reset inside the callback before the decode
+								ast.Inspect(l.Body, func(m ast.Node) bool {
+									if as, isA := m.(*ast.AssignStmt); isA && len(as.Lhs) == 1 && len(as.Rhs) == 1 && isIdentOf(info, as.Lhs[0], o) && as.Pos() < call.Pos() {
+										if cl, isL := ast.Unparen(as.Rhs[0]).(*ast.CompositeLit); isL && len(cl.Elts) == 0 {
+											ok = true
+										}
+									}
+									return true
+								})
+							}
+						}
+					}
+					c.Check(rule, f.Key()+" per-line decode into a fresh value", c.Pos(call), ok, why)
+				}
+			}
+		}
+		c.Expect(rule, "per-line decodes in api.Client streaming methods", n, 5)
+	}
+
+	rule = "C17-R12"
+	c.Rule(rule, "one test decides whether tool calls are looked for: every condition in ChatHandler (its goroutine and callback included) that mentions the request's tool list is a comparison of len(req.Tools) with 0 — the streaming callback and the non-streaming collector must agree, and `req.Tools != nil` differs from `len(req.Tools) > 0` for an explicit \"tools\": [] (the streamed answer is text, the non-streamed one a tool call)")
+	f := c.Fn(rule, "server", "Server.ChatHandler")
+	if f == nil {
+		return
+	}
+	info := f.Info()
+	fTools := c.P.LookupField("api", "ChatRequest", "Tools")
+	if fTools == nil {
+		c.Undecided(rule, "anchor:api.ChatRequest.Tools", "-", "anchor lost")
+		return
+	}
+	n := 0
+	for _, ff := range append([]*core.Func{f}, f.Lits()...) {
+		g := c.G(ff)
+		for _, cb := range g.CondBlocks() {
+			mentions := false
+			ast.Inspect(cb.Cond, func(m ast.Node) bool {
+				if se, ok := m.(*ast.SelectorExpr); ok && core.FieldVar(info, se) == fTools {
+					mentions = true
+				}
+				return true
+			})
+			if !mentions {
+				continue
+			}
+			// every use of the field inside the condition is len(req.Tools) compared with the constant 0
+			ok := true
+			var walk func(e ast.Expr)
+			walk = func(e ast.Expr) {
+				e = ast.Unparen(e)
+				switch x := e.(type) {
+				case *ast.BinaryExpr:
+					if x.Op == token.LAND || x.Op == token.LOR {
+						walk(x.X)
+						walk(x.Y)
+						return
+					}
+					uses := core.UsesField(info, x, fTools)
+					if !uses {
+						return
+					}
+					call, isC := ast.Unparen(x.X).(*ast.CallExpr)
+					v, isV := core.ConstInt(info, x.Y)
+					if !isC || core.CalleeName(info, call) != "builtin.len" || core.FieldVar(info, call.Args[0]) != fTools || !isV || v != 0 {
+						ok = false
+					}
+				case *ast.UnaryExpr:
+					walk(x.X)
+				default:
+					if core.UsesField(info, e, fTools) {
+						ok = false
+					}
+				}
+			}
+			walk(cb.Cond)
+			n++
+			c.Check(rule, ff.Key()+" tool gate#"+itoa(n), c.Pos(cb.Cond), ok, "`"+core.ExprString(cb.Cond)+"` does not test len(req.Tools) against 0: the gates of the streamed and the non-streamed path can disagree")
+		}
+	}
+	c.Expect(rule, "conditions on the request's tool list in ChatHandler", n, 3)
+}
+
+// ---------------------------------------------------------------------------------- C19 (image count) and C20 (growing loop)
+
+func init() {
+	registry["C19"].Pkgs = append(registry["C19"].Pkgs, "api")
+	prev19 := registry["C19"].Run
+	registry["C19"].Run = func(c *Ctx) { prev19(c); extra5C19(c) }
+	prev20 := registry["C20"].Run
+	registry["C20"].Run = func(c *Ctx) { prev20(c); extra5C20(c) }
+}
+
+func extra5C19(c *Ctx) {
+	rule := "C19-R8"
+	c.Rule(rule, "every image that is sent is counted: in chatPrompt and the functions of package server it calls, the images of a message (api.Message.Images) are read with no condition on the message's role on the path — the size probe and the tagging loop must agree on which images exist, and the tagging loop tags the images of every retained message whatever its role (an estimate that counts user images only lets the run overflow the context by 768 tokens per image on an assistant, system or tool message)")
+	f := c.Fn(rule, "server", "chatPrompt")
+	if f == nil {
+		return
+	}
+	info := f.Info()
+	fImages := c.P.LookupField("api", "Message", "Images")
+	fRole := c.P.LookupField("api", "Message", "Role")
+	if fImages == nil || fRole == nil {
+		c.Undecided(rule, "anchor:api.Message.Images/Role", "-", "anchor lost")
+		return
+	}
+	units := []*core.Func{f}
+	units = append(units, f.Lits()...)
+	seen := map[string]bool{f.Key(): true}
+	for _, call := range core.Calls(f.Body, true) {
+		if fo, ok := core.Callee(info, call).(*types.Func); ok {
+			for _, cand := range c.P.FuncsOf("server") {
+				if cand.Obj != nil && cand.Obj.FullName() == fo.FullName() && !seen[cand.Key()] && !strings.HasSuffix(c.Pos(cand.Body), "_test.go") {
+					seen[cand.Key()] = true
+					units = append(units, cand)
+				}
+			}
+		}
+	}
+	n := 0
+	for _, u := range units {
+		g := c.G(u)
+		for _, h := range g.Find(func(m ast.Node) bool {
+			se, ok := m.(*ast.SelectorExpr)
+			return ok && core.FieldVar(info, se) == fImages
+		}) {
+			n++
+			bad := ""
+			for _, a := range g.AtomsAt(h.Loc) {
+				if core.UsesField(info, a.Expr, fRole) {
+					bad = core.ExprString(a.Expr)
+				}
+			}
+			c.Check(rule, u.Key()+" images read#"+itoa(n)+" whatever the role", c.Pos(h.Node), bad == "", "the images are only looked at where "+bad)
+		}
+	}
+	c.Expect(rule, "reads of Message.Images on the prompt path", n, 3)
+}
+
+func extra5C20(c *Ctx) {
+	rule := "C20-R8"
+	c.Rule(rule, "a list that grows while it is walked is walked to its end: in both Encode functions a loop whose body assigns to the slice it iterates over (the special-token splitting appends the pieces after a special token to the fragment list) is a three-clause loop whose condition re-reads len of that slice — `for i := range fragments` fixes the bound before the body grows the list, so the text after the first occurrence of a special token is never searched for a second one")
+	info := c.P.Pkgs["model"].TypesInfo
+	n := 0
+	for _, name := range []string{"BytePairEncoding.Encode", "SentencePieceModel.Encode"} {
+		f := c.Fn(rule, "model", name)
+		if f == nil {
+			continue
+		}
+		ast.Inspect(f.Body, func(m ast.Node) bool {
+			var over types.Object
+			var body *ast.BlockStmt
+			isRange := false
+			switch x := m.(type) {
+			case *ast.RangeStmt:
+				if id, ok := ast.Unparen(x.X).(*ast.Ident); ok {
+					over, body, isRange = info.Uses[id], x.Body, true
+				}
+			case *ast.ForStmt:
+				if x.Cond != nil {
+					ast.Inspect(x.Cond, func(k ast.Node) bool {
+						if call, ok := k.(*ast.CallExpr); ok && core.CalleeName(info, call) == "builtin.len" {
+							if id, isId := ast.Unparen(call.Args[0]).(*ast.Ident); isId {
+								over, body = info.Uses[id], x.Body
+							}
+						}
+						return true
+					})
+				}
+			}
+			if over == nil || body == nil {
+				return true
+			}
+			grows := false
+			core.InspectShallow(body, func(k ast.Node) bool {
+				if as, ok := k.(*ast.AssignStmt); ok {
+					for _, l := range as.Lhs {
+						if isIdentOf(info, l, over) {
+							grows = true
+						}
+					}
+				}
+				return true
+			})
+			if !grows {
+				return true
+			}
+			n++
+			c.Check(rule, f.Key()+" loop#"+itoa(n)+" over a list its body extends", c.Pos(m), !isRange, "a range loop evaluates the length once: elements appended by the body are never visited")
+			return true
+		})
+	}
+	c.Expect(rule, "loops that extend the list they walk", n, 2)
+}
